@@ -60,6 +60,7 @@ of the rewrites below is unsound.  Rewrites (each applied to BOTH sides):
       -> `if c: stmt[X] else: stmt[Y]`
   R34 a module-level name that the reviewed module does not have, bound once to a literal or to struct.Struct(<literal>),
       is replaced by its value (S.pack(a) -> struct.pack(fmt, a), S.unpack likewise, S.size -> calcsize(fmt))
+  R35 `for k, v in X.items(): B` with X side-effect free, not written and k, v not rebound in B  ->  `for k in X: B[v := X[k]]`
   R14 `if a: X` directly followed by `if b: X` where X ends in continue / break / return / raise, and
       `if a: X elif b: X`:  ->  `if a or b: X`
 
@@ -221,14 +222,16 @@ def heap_roots(e):
 
 # ------------------------------------------------------------------------------------------ effects
 class Effects:
-    __slots__ = ('rebinds', 'writes', 'reads', 'hreads', 'world', 'reshapes')
+    __slots__ = ('rebinds', 'writes', 'reads', 'hreads', 'world', 'reshapes', 'direct')
 
     def __init__(self):
         self.rebinds, self.writes, self.reads, self.hreads, self.world = set(), set(), set(), set(), False
         self.reshapes = set()      # objects whose length / shape / set of keys may change (subset of writes)
+        self.direct = set()        # names whose own slots may be rebound: D[...] = v, D.attr = v, D.method(...), f(D)
 
     def merge(self, o):
         self.rebinds |= o.rebinds
+        self.direct |= o.direct
         self.reshapes |= o.reshapes
         self.writes |= o.writes
         self.reads |= o.reads
@@ -287,6 +290,8 @@ def stmt_effects(s, al):
             if r:
                 if isinstance(n.ctx, (ast.Store, ast.Del)):
                     ef.writes.add(al.find(r))
+                    if isinstance(n.value, ast.Name):
+                        ef.direct.add(n.value.id)
                     if isinstance(n, ast.Attribute) or isinstance(n.ctx, ast.Del):
                         ef.reshapes.add(al.find(r))      # x.shape = ..., self.halos = ..., del d[k]
                     elif not _elementwise_target(n):
@@ -299,6 +304,8 @@ def stmt_effects(s, al):
             if r:
                 ef.writes.add(al.find(r))      # in-place update of the object bound to the name
                 ef.hreads.add(al.find(r))
+                if isinstance(t, ast.Name):
+                    ef.direct.add(t.id)
         if isinstance(n, ast.Call):
             d = dotted(n.func)
             argroots = set()
@@ -312,6 +319,11 @@ def stmt_effects(s, al):
                 ef.hreads.add(al.find(recv))
             readonly = d in READONLY_CALLS or (isinstance(n.func, ast.Attribute) and n.func.attr in PURE_METHODS) or isinstance(n.func, ast.Lambda)
             if not readonly:
+                for a in list(n.args) + [k.value for k in n.keywords]:
+                    if isinstance(a, ast.Name):
+                        ef.direct.add(a.id)
+                if recv:
+                    ef.direct.add(recv)
                 ef.writes |= argroots             # a callee can change the elements of an array it is given, not its length
                 if recv and d.split('.')[0] not in ('np', 'numba', 'nb', 'math', 're', 'gc', 'warnings', 'os', 'util', 'bitpacked'):
                     ef.writes.add(al.find(recv))
@@ -378,6 +390,12 @@ def _bound_in(fn):
 
 
 class _Fold(ast.NodeTransformer):
+    def visit_IfExp(self, n):
+        self.generic_visit(n)
+        if isinstance(n.test, ast.Constant) and isinstance(n.test.value, (bool, int)):
+            return n.body if n.test.value else n.orelse
+        return n
+
     def visit_BinOp(self, n):
         self.generic_visit(n)
         a, b = n.left, n.right
@@ -488,6 +506,12 @@ class _LightFold(ast.NodeTransformer):
     def visit_Call(self, n):
         self.generic_visit(n)
         return _call_defaults(n)
+
+    def visit_IfExp(self, n):
+        self.generic_visit(n)
+        if isinstance(n.test, ast.Constant) and isinstance(n.test.value, (bool, int)):
+            return n.body if n.test.value else n.orelse
+        return n
 
     """Constant folding only (R3, R20); leaves comparisons, keywords and operand order alone."""
     def visit_BinOp(self, n):
@@ -756,7 +780,23 @@ class Normaliser:
         g = self.funcs[fname]
         is_method = fname.startswith('self.')
         a = g.args
-        if a.vararg or a.kwarg or a.kwonlyargs or any(isinstance(x, ast.Starred) for x in call.args) or any(k.arg is None for k in call.keywords):
+        if a.vararg or a.kwonlyargs or any(isinstance(x, ast.Starred) for x in call.args):
+            return None
+        extra_kws = None
+        if a.kwarg:
+            # **K of the helper: allowed when K is only ever forwarded as **K; the caller's surplus keywords take its place
+            pn = {x.arg for x in a.posonlyargs + a.args}
+            posonly = {x.arg for x in a.posonlyargs}
+            extra_kws = [k for k in call.keywords if k.arg is None or k.arg not in pn or k.arg in posonly]
+            if any(k.arg is None and not is_pure(k.value) for k in extra_kws):
+                return None
+            K = a.kwarg.arg
+            uses = [n for n in ast.walk(g) if isinstance(n, ast.Name) and n.id == K]
+            fwd = [k for n in ast.walk(g) if isinstance(n, ast.Call) for k in n.keywords if k.arg is None and isinstance(k.value, ast.Name) and k.value.id == K]
+            if len(uses) != len(fwd):
+                return None
+            call = ast.Call(func=call.func, args=call.args, keywords=[k for k in call.keywords if k not in extra_kws])
+        elif any(k.arg is None for k in call.keywords):
             return None
         static = False
         for d in g.decorator_list:
@@ -837,6 +877,21 @@ class Normaliser:
                     return copy.deepcopy(m[n.id])
                 return n
         body = [_Ren().visit(copy.deepcopy(st)) for st in body]
+        if extra_kws is not None:
+            K = a.kwarg.arg
+
+            class _KW(ast.NodeTransformer):
+                def visit_Call(self_, n):
+                    self_.generic_visit(n)
+                    kws = []
+                    for k in n.keywords:
+                        if k.arg is None and isinstance(k.value, ast.Name) and k.value.id in (K, tag + K):
+                            kws.extend(copy.deepcopy(extra_kws))
+                        else:
+                            kws.append(k)
+                    n.keywords = kws
+                    return n
+            body = [_KW().visit(st) for st in body]
         # returns must all be in tail position
         ok = [True]
 
@@ -1208,6 +1263,23 @@ class Normaliser:
                 lam = ast.Lambda(args=g.args, body=g.body[0].value)
                 return [ast.Assign(targets=[ast.Name(id=g.name, ctx=ast.Store())], value=lam)]
             return [g]
+        if isinstance(s, ast.For) and isinstance(s.target, ast.Tuple) and len(s.target.elts) == 2 and all(isinstance(e, ast.Name) for e in s.target.elts) \
+                and isinstance(s.iter, ast.Call) and isinstance(s.iter.func, ast.Attribute) and s.iter.func.attr == 'items' and not s.iter.args \
+                and not s.iter.keywords and is_pure(s.iter.func.value) and not s.orelse:
+            kname, vname = s.target.elts[0].id, s.target.elts[1].id
+            X = s.iter.func.value
+            mod = ast.Module(body=s.body, type_ignores=[])
+            bb = _bound_in(mod)
+            al_ = Aliases(mod)
+            ef_ = Effects()
+            for b_ in s.body:
+                ef_.merge(stmt_effects(b_, al_))
+            rootX = root_name(X) if not isinstance(X, ast.Name) else X.id
+            if kname not in bb and vname not in bb and kname != vname and (not self.directional or self.is_new(vname)) \
+                    and not (names_loaded(X) & bb) and not (rootX and al_.find(rootX) in ef_.reshapes):
+                sub = ast.Subscript(value=copy.deepcopy(X), slice=ast.Name(id=kname, ctx=ast.Load()), ctx=ast.Load())
+                s = ast.For(target=ast.Name(id=kname, ctx=ast.Store()), iter=copy.deepcopy(X),
+                            body=[_Subst({vname: sub}).visit(b_) for b_ in s.body], orelse=[])
         if isinstance(s, ast.For):
             s.body = self.block(s.body)
             if not self.directional:
@@ -1256,7 +1328,8 @@ class Normaliser:
         if isinstance(s, ast.Assign) and len(s.targets) == 1 and isinstance(s.targets[0], ast.Tuple) and isinstance(s.value, ast.Tuple) \
                 and len(s.targets[0].elts) == len(s.value.elts) and all(isinstance(t, ast.Name) for t in s.targets[0].elts):
             tn = {t.id for t in s.targets[0].elts}
-            if not (tn & names_loaded(s.value)) and len(tn) == len(s.targets[0].elts) and (not self.directional or getattr(s, '_from_inline', False)):
+            if not (tn & names_loaded(s.value)) and len(tn) == len(s.targets[0].elts) and \
+                    (not self.directional or getattr(s, '_from_inline', False) or all(self.is_new(t_) for t_ in tn)):
                 return [ast.Assign(targets=[ast.Name(id=t.id, ctx=ast.Store())], value=v) for t, v in zip(s.targets[0].elts, s.value.elts)]
         if isinstance(s, ast.Expr) and isinstance(s.value, ast.Call) and isinstance(s.value.func, ast.Attribute) and s.value.func.attr == 'append' \
                 and isinstance(s.value.func.value, ast.Name) and len(s.value.args) == 1 and not s.value.keywords \
@@ -1395,6 +1468,7 @@ class Normaliser:
             whole.merge(stmt_effects(s, self.al))
         cand = {}
         state = dict(ok=set(), bad=set())
+        refread = {}      # candidate name -> container name D, for x = D[k] used only as an object (x[...], x.attr, len(x))
 
         def candidate(s):
             return isinstance(s, ast.Assign) and len(s.targets) == 1 and isinstance(s.targets[0], ast.Name) and counts.get(s.targets[0].id) == 1 \
@@ -1424,6 +1498,11 @@ class Normaliser:
                 e = env[k]
                 if names_loaded(e) & ef.rebinds or k in ef.rebinds:
                     del env[k]
+                    continue
+                if k in refread:
+                    # the value is a reference held in a slot of D: only rebinding that slot can change it
+                    if refread[k] in ef.direct or (self.al.cls(heap_roots(e.slice)) & ef.writes if isinstance(e, ast.Subscript) else False):
+                        del env[k]
                     continue
                 so = shape_only_roots(e)
                 if self.al.cls(heap_roots(e) - so) & ef.writes or self.al.cls(so) & ef.reshapes:
@@ -1475,6 +1554,27 @@ class Normaliser:
         for n in ast.walk(fn):
             if isinstance(n, ast.Assign) and candidate(n):
                 cand[n.targets[0].id] = n
+        # reference reads: x = D[k] where x is only ever used as the base of a subscript / attribute or under len()
+        parents = {}
+        for n in ast.walk(fn):
+            for ch in ast.iter_child_nodes(n):
+                parents[id(ch)] = n
+        for x, st_ in cand.items():
+            v = st_.value
+            if isinstance(v, ast.Subscript) and isinstance(v.value, ast.Name) and not isinstance(v.slice, ast.Slice):
+                uses = [n for n in ast.walk(fn) if isinstance(n, ast.Name) and n.id == x and isinstance(n.ctx, ast.Load)]
+                ok_obj = bool(uses)
+                for u in uses:
+                    p_ = parents.get(id(u))
+                    if isinstance(p_, (ast.Subscript, ast.Attribute)) and p_.value is u:
+                        continue
+                    if isinstance(p_, ast.Call) and dotted(p_.func) == 'len' and p_.args and p_.args[0] is u:
+                        continue
+                    if isinstance(p_, ast.For) and p_.iter is u:
+                        continue
+                    ok_obj = False
+                if ok_obj:
+                    refread[x] = v.value.id
         walk_block(fn.body, {})
         ok = {k for k in cand if k not in state['bad']}
         # a candidate whose value mentions a rejected candidate is still fine (the rejected one stays a variable)
